@@ -18,8 +18,14 @@ def chunks(bits):
     return out
 
 
+_MK = [0]
+
+
 def rec_event(op, bits, start, n, x=0, xerr=0, xc=()):
-    return dict(op=op, row=chunks(bits), len=len(bits), start=start, n=n, x=x, xerr=xerr, xc=list(xc))
+    # mk: how the driver builds the row - 0 NewBitArray + Set, 1 AppendBit from an empty array, 2 AppendBits in 5-bit pieces
+    # (appended rows carry spare capacity words behind their last bit, as the rows the encoders and binarisers build do)
+    _MK[0] += 1
+    return dict(op=op, row=chunks(bits), len=len(bits), start=start, n=n, x=x, xerr=xerr, xc=list(xc), mk=_MK[0] % 3)
 
 
 def pmv_event(c, p, vn, vd, x=0, xinf=0, xnum=0):
